@@ -304,6 +304,7 @@ def check(repo, rep, tier):
         rp.r_callbacks(repo, rep, 'R11.5')
         rp.r_sentence_loop(repo, rep, 'R11.4', ti)
     r_state(repo, rep)
+    rp.r_retrieve_tree(repo, rep, 'R11.4', {'shape'})     # every tree is rebuilt from the items of its own sentence (nothing remembered by item address across sentences)
     rp.r_kwargs_not_captured(repo, rep, 'R11.4')     # 'too long' is decided from the max_length the caller passed
     m = ParseModel(repo)
     rc.r_cache(m, rep, 'R11.5')
